@@ -10,6 +10,8 @@
 // detector sees only the synchronisation of the code under test.
 package simrt
 
+import "unsafe"
+
 // Yield is called at the start of every instrumented basic block.
 // With no simulation active it is one predictable branch.
 //
@@ -70,14 +72,17 @@ type Result struct {
 	SwitchSites []uint32 // site at which each switch happened (parallel to Tape entries after the first)
 	ForcedFired int
 	SiteVisits  []uint32
+	Blocks      int  // times a worker parked on a held simulated lock
+	Deadlock    bool // every unfinished worker was blocked
 }
 
 type worker struct {
-	id   int
-	wake chan struct{}
-	done bool
-	fn   func()
-	prio int
+	id        int
+	wake      chan struct{}
+	done      bool
+	fn        func()
+	prio      int
+	blockedOn unsafe.Pointer // non-nil while parked on a simulated lock
 }
 
 type sched struct {
@@ -123,7 +128,7 @@ func (s *sched) geometric() int64 {
 func (s *sched) runnable() int {
 	n := 0
 	for _, w := range s.ws {
-		if !w.done {
+		if !w.done && w.blockedOn == nil {
 			n++
 		}
 	}
@@ -139,14 +144,14 @@ func (s *sched) pick() int {
 	case PolPCT:
 		best := -1
 		for _, w := range s.ws {
-			if !w.done && (best < 0 || w.prio > s.ws[best].prio) {
+			if !w.done && w.blockedOn == nil && (best < 0 || w.prio > s.ws[best].prio) {
 				best = w.id
 			}
 		}
 		return best
 	case PolSerial:
 		for _, w := range s.ws {
-			if !w.done {
+			if !w.done && w.blockedOn == nil {
 				return w.id
 			}
 		}
@@ -154,13 +159,13 @@ func (s *sched) pick() int {
 	case PolReplay:
 		for s.tapePos < len(s.cfg.Tape) {
 			w := s.cfg.Tape[s.tapePos].W
-			if w >= 0 && w < len(s.ws) && !s.ws[w].done {
+			if w >= 0 && w < len(s.ws) && !s.ws[w].done && s.ws[w].blockedOn == nil {
 				return w
 			}
 			s.tapePos++
 		}
 		for _, w := range s.ws {
-			if !w.done {
+			if !w.done && w.blockedOn == nil {
 				return w.id
 			}
 		}
@@ -172,7 +177,7 @@ func (s *sched) pick() int {
 	}
 	k := int(s.rand() % uint64(n))
 	for _, w := range s.ws {
-		if !w.done {
+		if !w.done && w.blockedOn == nil {
 			if k == 0 {
 				return w.id
 			}
@@ -314,6 +319,12 @@ func (s *sched) finish(w *worker) {
 	}
 	next := s.pick()
 	if next < 0 {
+		for _, o := range s.ws {
+			if !o.done {
+				s.res.Deadlock = true
+				panic("simrt: deadlock: the last runnable worker finished while others are blocked on a lock")
+			}
+		}
 		raceDisable()
 		s.allDone <- struct{}{}
 		raceEnable()
